@@ -46,6 +46,10 @@ CLAIMED = {
          'PARTIAL. Proved for every oracle, collation argument, body outcome and sequence of blocks: afterwards the lock is free and LC_COLLATE is what it was; for every interleaving of N threads the lock is held iff exactly one thread is inside a locale block, LC_COLLATE is the initial one when none is, and some thread can always move. The pre-fix enter is refuted by a kernel-checked witness (fixed in /repo). Real scheduling, the C library locale, expat entity handling, os.environ and the decimal context are runtime: observed by fault sequences (all pairs of collation arguments + random sequences over 11 collation-using functions), entity inputs, environment-variable gating and threads-vs-sequential runs.',
          'Trusted: Coq kernel; measured availability oracle; harness mapping of collation URIs to (locale, fallback); sub-process watchdog. No axioms.',
          'DESIGN.md §6 C19'),
+ 'C08': ('Coq proof: the generator loops of the sequence functions refined to the F&O list definitions, every = not some not, multi-variable for = nested dependent for; correspondence through select() on integer sequences and expression templates',
+         'For all integer sequences and arguments: insert-before / remove / index-of / distinct-values / min / sum equal their list-model definitions (positions clamped as specified), subsequence is the positional filter with IEEE INF/NaN rules, every = not(some not) and for with several (dependent) variables = nested for, proved by induction. Partial: iter_product is modelled as the dependent product it computes (not its index-stack loop), aggregates on doubles and collations are not modelled; reverse/head/tail/count/cardinality functions are thin wrappers checked by correspondence.',
+         'Trusted: Coq kernel; harness encoding of sequences and rounding of subsequence arguments (exact floor(x+1/2)); decimal.Decimal division precision for avg. No axioms.',
+         'DESIGN.md §6 C08'),
 }
 
 NOT_YET = {}
